@@ -8,13 +8,15 @@ Local Open Scope N_scope.
 Record dur : Type := mkDur { u_neg : bool; u_y : Z; u_mo : Z; u_d : Z; u_h : Z; u_mi : Z; u_s : Z }.
 
 (** one "find the designator, parse the number before it" step: (value, new fStart, seen) or None on a bad number *)
-Definition dur_step (b : list N) (fs endp : nat) (des : N) : option (Z * nat * bool) :=
+Definition dur_step_f (fix35 : bool) (b : list N) (fs endp : nat) (des : N) : option (Z * nat * bool) :=
   match index_of b fs (endp - fs) des with
-  | Some e => match parse_int b fs e with Some v => Some (v, S e, true) | None => None end
+  | Some e => if fix35 && (e <=? fs)%nat then None      (* repaired parseInt: an empty range is not a number *)
+              else match parse_int b fs e with Some v => Some (v, S e, true) | None => None end
   | None => Some (0%Z, fs, false)
   end.
 
-Definition dur_parse (b : list N) : option dur :=
+Definition dur_parse_f (fix35 : bool) (b : list N) : option dur :=
+  let dur_step := dur_step_f fix35 in
   match b with [] => None | c :: _ =>
   let fEnd := length b in
   if negb (c =? 0x50) && negb (c =? ch_minus) then None else
@@ -36,10 +38,11 @@ Definition dur_parse (b : list N) : option dur :=
       match index_of b fs (fEnd - fs) 0x53 with
       | Some e =>
           match index_of b fs (e - fs) ch_dot with
-          | Some ml => if (S ml =? e)%nat then None
+          | Some ml => if (S ml =? e)%nat || (fix35 && (ml <=? fs)%nat) then None
                        else match parse_int b fs ml, parse_ms b (S ml) (e - S ml) with
                             | Some v, Some _ => Some (v, S e, true) | _, _ => None end
-          | None => match parse_int b fs e with Some v => Some (v, S e, true) | None => None end
+          | None => if fix35 && (e <=? fs)%nat then None
+                    else match parse_int b fs e with Some v => Some (v, S e, true) | None => None end
           end
       | None => Some (0%Z, fs, false)
       end in
@@ -50,7 +53,9 @@ Definition dur_parse (b : list N) : option dur :=
   else if negb (d1 || d2 || d3) then None
        else Some (mkDur neg (ng y) (ng mo) (ng d) 0 0 0))))
   end end.
+Definition dur_parse (b : list N) : option dur := dur_parse_f false b.
 Definition dur_ok (b : list N) : bool := match dur_parse b with Some _ => true | None => false end.
+Definition dur_ok_f (fix35 : bool) (b : list N) : bool := match dur_parse_f fix35 b with Some _ => true | None => false end.
 Definition xsv_duration_validate (s : list N) : bool := if all_spaces s then false else dur_ok (trim_ws s).
 
 Local Open Scope Z_scope.
@@ -134,3 +139,39 @@ Definition dur_bounds (maxE maxI minI minE : option dur) (v : dur) : bool :=
   match maxI with Some m => let r := dur_compare v m true in negb ((r =? GREATER) || (r =? INDET)) | None => true end &&
   match minI with Some m => let r := dur_compare v m true in negb ((r =? LESS) || (r =? INDET)) | None => true end &&
   match minE with Some m => dur_compare v m true =? GREATER | None => true end.
+
+(** ** with fixes/C09-duration-fraction-compare.patch: parseDuration sets fHasTime and addDuration carries fMilliSecond, so
+    compareOrder compares the (signed) fraction when all fields are equal.  [fix36] = false: code as is *)
+Definition dur_ms (b : list N) : Q :=
+  let neg := (at_ b 0 =? ch_minus)%N in
+  match index_of b 0 (length b) ch_dot with
+  | None => 0%Q
+  | Some i => let fd := fst (span_digits (skipn (S i) b)) in
+              let q := dval fd # pow10 (length fd) in if neg then Qopp q else q
+  end.
+Definition fields_cmp_x (fix36 : bool) (a : dtn) (ma : Q) (b : dtn) (mb : Q) : Z :=
+  let r := fields_cmp a b in
+  if fix36 && (r =? EQUAL) then match Qcompare ma mb with Lt => LESS | Gt => GREATER | Eq => EQUAL end else r.
+Definition dur_compare_x (fix36 : bool) (a : dur * Q) (b : dur * Q) (strict : bool) : Z :=
+  if fields_cmp_x fix36 (dur_normalize (fst a)) (snd a) (dur_normalize (fst b)) (snd b) =? EQUAL then EQUAL else
+  let c (i : nat) := let r := nth i ref_dates (0, 0) in
+                     fields_cmp_x fix36 (add_duration r (fst a)) (snd a) (add_duration r (fst b)) (snd b) in
+  let ra := c 0%nat in
+  if ra =? INDET then INDET else
+  let ra := compare_result ra (c 1%nat) strict in
+  if ra =? INDET then INDET else
+  let ra := compare_result ra (c 2%nat) strict in
+  if ra =? INDET then INDET else
+  compare_result ra (c 3%nat) strict.
+Definition dur_parse_x (fix35 : bool) (s : list N) : option (dur * Q) :=
+  match dur_parse_f fix35 s with Some d => Some (d, dur_ms s) | None => None end.
+Definition durv_compare_x (fix35 fix36 : bool) (s1 s2 : list N) : Z :=
+  match dur_parse_x fix35 s1, dur_parse_x fix35 s2 with
+  | Some a, Some b => let r := dur_compare_x fix36 a b true in if r =? INDET then -1 else r
+  | _, _ => -1
+  end.
+Definition dur_bounds_x (fix36 : bool) (maxE maxI minI minE : option (dur * Q)) (v : dur * Q) : bool :=
+  match maxE with Some m => dur_compare_x fix36 v m true =? LESS | None => true end &&
+  match maxI with Some m => let r := dur_compare_x fix36 v m true in negb ((r =? GREATER) || (r =? INDET)) | None => true end &&
+  match minI with Some m => let r := dur_compare_x fix36 v m true in negb ((r =? LESS) || (r =? INDET)) | None => true end &&
+  match minE with Some m => dur_compare_x fix36 v m true =? GREATER | None => true end.
